@@ -323,6 +323,62 @@ def c08_id3_delete_options(ctx, checks):
                        {"kind": "ID3", "how": how, "delete_v1": dv1, "delete_v2": dv2, "len_after": len(out), "len_expected": len(want)})
 
 
+def c08_tags_delete(ctx, checks):
+    """delete through the TAG object (obj.tags.delete(file)) does what obj.delete(file) does, for every kind whose tag class
+    has a delete method; and after a delete nothing of the old tag - frames mutagen could not interpret included - comes
+    back when the same (now empty) object is saved again"""
+    if "C08" not in checks:
+        return
+    for kname, kind in KINDS.items():
+        if kind.is_tagclass:
+            continue
+        allsamples = kind.samples()
+        for sample, data in [x for x in allsamples if not x[0].startswith(("synth", "layout"))][:2] + [x for x in allsamples if x[0].startswith("synth")]:
+            try:
+                w0 = kind.walk(data)
+                o = kind.open(io.BytesIO(data))
+            except Exception:
+                continue
+            t = kind.tags_of(o)
+            if t is None or not hasattr(t, "delete") or not engine_has_tags(kind, w0):
+                continue
+            try:
+                b1 = io.BytesIO(data); kind.open(io.BytesIO(data)).delete(b1)
+                b2 = io.BytesIO(data); t.delete(b2)
+            except mutagen.MutagenError:
+                continue
+            except TypeError:
+                continue
+            ctx.oracle_cases += 1
+            ctx.count("c08:tags-delete")
+            ctx.case((kname, sample, "tags.delete"))
+            d = {"kind": kname, "sample": sample}
+            if b2.getvalue() != b1.getvalue():
+                _v(ctx, "C08", "%s: obj.tags.delete(file) leaves a different file than obj.delete(file)" % kname,
+                   dict(d, len_tags_delete=len(b2.getvalue()), len_delete=len(b1.getvalue()), len_before=len(data)))
+                continue
+            # the emptied object saved again must not bring anything of the old tag back
+            try:
+                b3 = io.BytesIO(b2.getvalue())
+                if kind.tags_of(o) is None:
+                    continue
+                o.save(b3)
+                w3 = kind.walk(b3.getvalue())
+            except (mutagen.MutagenError, W.Bad):
+                continue
+            if kind.style == "id3" and isinstance(w3.get("tags"), dict) and w3["tags"].get("frames"):
+                _v(ctx, "C08", "%s: frames of the deleted tag come back when the emptied object is saved again" % kname,
+                   dict(d, frames=[f[0] for f in w3["tags"]["frames"]][:8]))
+
+
+def engine_has_tags(kind, w):
+    from .engine import has_tags
+    try:
+        return has_tags(kind, w)
+    except Exception:
+        return False
+
+
 def c02_stray_tag_marker(ctx, checks):
     """audio whose last 131 bytes contain the bytes 'TAG' where no ID3v1 tag can start: no save option may cut or
     overwrite the audio there"""
@@ -724,7 +780,7 @@ OGG_SCENARIOS = (ogg_lacing_sweep, ogg_opus_trailer_sweep, ogg_foreign_paging)
 
 
 def run(ctx, checks, only=None):
-    for fn in only or ((c01_pictures, c01_asf_plain_values, c01_easy_multivalue, c09_easy, c08_ape_stale_fragments, c08_id3_delete_options, c02_stray_tag_marker) + OGG_SCENARIOS):
+    for fn in only or ((c01_pictures, c01_asf_plain_values, c01_easy_multivalue, c09_easy, c08_ape_stale_fragments, c08_id3_delete_options, c08_tags_delete, c02_stray_tag_marker) + OGG_SCENARIOS):
         try:
             fn(ctx, checks)
         except Exception as e:
